@@ -7,7 +7,7 @@ import ticc_util as tu
 from common import show_list
 
 LEVEL = "proof"
-LEAN_PROPS = ["FastTicc.Props.C04", "FastTicc.Props.C10", "FastTicc.Props.C01", "FastTicc.Props.C11", "FastTicc.Props.C04b", "FastTicc.Props.FrontEnd"]
+LEAN_PROPS = ["FastTicc.Props.C04", "FastTicc.Props.C10", "FastTicc.Props.C01", "FastTicc.Props.C11", "FastTicc.Props.C04b", "FastTicc.Props.FrontEnd", "FastTicc.Props.PyRange"]
 LEAN_HELPERS = ["FastTicc.Proofs.Stack"]
 LEAN_TRANSLATED = {"FastTicc.Props.TrPad": ["pad_missing_labels"], "FastTicc.Props.TrSplit": ["split_joint_labels"]}
 RULE = ("(a) padding/splitting helpers: every W in [1,12] x label lengths 0..60 (exhaustive) and random joint splits; "
